@@ -7,9 +7,12 @@ CONSTANTS
   GeCmp = TRUE
   AwaitStop = TRUE
   NotifyPop = TRUE
+  ReleaseOnEnd = TRUE
+  Faults = TRUE
   MaxOps = 4
   MaxCancel = 1
   Depth = 0
 PROPERTY RecvProgress
 PROPERTY SenderLearnsEventually
 PROPERTY CloseCompletes
+PROPERTY PendingReleased
